@@ -71,6 +71,11 @@ class BitStore:
             if x.modified_length > len(x._bitarray):
                 raise CreationError(
                     f"Can't create bitstring with a length of {x.modified_length} from {len(x._bitarray)} bits of data.")
+            # Only the first modified_length bits belong to the bitstring. Most operations work on the whole
+            # underlying bitarray, so take just those bits (into memory) rather than carrying the extra ones around.
+            if x.modified_length < len(x._bitarray):
+                x._bitarray = x._bitarray[:x.modified_length]
+            x.modified_length = None
         return x
 
     def setall(self, value: int, /) -> None:
